@@ -13,6 +13,10 @@
     c18 dep <site> <spec>                                       → issue-dependent maps: spec = the map kinds of c,s,p,g,l
         (K T N I O Z F E, - = not configured); model = Site.winnerDep (FinalizeIssue on the sources the site passes, applied
         to the features of the raw issue from Gen.leafSeen), spec = specDep (first configured source that has an answer)
+    c18 multi <raiser>@<chain> <spec> <code/inStr/hasOrigin,…>   → ONE check that reports several issues in one run, every source a
+        message function of the `dep` kinds: model = Msg.multiMessages (expectedMessage → nestedMessage → finalize, evaluated PER
+        ISSUE with the check message applied to that issue), spec = Msg.multiSpec (per issue, the first source that answers for
+        it); both as "w1,w2,…" in the order the issues were pushed
     c18 reach <outer file:line> <fin file:line> <cell> <applicable> <source>   → leaf coverage of the static catalogue: the
         cell (constructor family x variant x input) resolved a message at these two calls; with only <source> configured the
         model = siteMessage on the sources neither static row drops, spec = the source
@@ -21,6 +25,7 @@
 -/
 import Gozod.Model.Msg
 import Gozod.Model.MsgExpect
+import Gozod.Model.MsgMulti
 import Gozod.Model.Config
 import Gozod.Gen.MsgWiring
 import Gozod.Gen.LocaleTable
@@ -39,6 +44,21 @@ def parseSite (id : String) : Option (String × List String) :=
     -- the leaf and every position must be known to the run (regenerated tables): a typo must not be predicted
     if (Gozod.Gen.topPasses.lookup leaf).isSome && chain.all (fun n => Gozod.Gen.positions.any (fun p => p.name == n))
     then some (leaf, chain) else none
+  | _ => none
+
+/-- `raiser@chain` of a `multi` cell: the raiser must be listed in `Msg.multiGaps`, every position known to the run -/
+def parseMultiSite (id : String) : Option (SrcSet × List String) :=
+  match id.splitOn "@" with
+  | [raiser, w] =>
+    let chain := if w == "top" then [] else w.splitOn ">"
+    match multiGaps.lookup raiser with
+    | some drops => if chain.all (fun n => Gozod.Gen.positions.any (fun p => p.name == n)) then some (drops, chain) else none
+    | none => none
+  | _ => none
+
+def parseFeat (t : String) : Option RawFeat :=
+  match t.splitOn "/" with
+  | [code, a, b] => if code != "" && (a == "0" || a == "1") && (b == "0" || b == "1") then some ⟨code, a == "1", b == "1"⟩ else none
   | _ => none
 
 def setOf (s : String) : SrcSet := if s == "-" then SrcSet.empty else SrcSet.ofString s
@@ -109,6 +129,14 @@ def handle : List String → String
         s!"{expectedMessage drops chain (depSources sp f) f} {specDep sp f}"
       | none => "no-such-leaf -"
     | none => "no-such-site -"
+  | ["multi", site, spec, feats] =>
+    -- a multi-issue check: the model is evaluated per issue of the check (the check message applied to THAT issue)
+    match parseMultiSite site, (feats.splitOn ",").mapM parseFeat with
+    | some (drops, chain), some fs =>
+      let sp := spec.toList
+      if sp.length != 5 then "bad-op -" else
+      s!"{",".intercalate (multiMessages drops chain (depFnSources sp) fs)} {",".intercalate (multiSpec (depFnSources sp) fs)}"
+    | _, _ => "no-such-site -"
   | ["reach", outer, fin, _cell, _appl, src] =>
     -- leaf coverage: one source configured alone at a cell that reaches the static rows `outer` (first frame outside
     -- internal/issues) and `fin` (the caller of FinalizeIssue); model = FinalizeIssue on the sources neither row drops
